@@ -190,6 +190,11 @@ def run_worker(cmd, on_rec, stdin_text=None, timeout=None):
                 forced = "deadlock"
             elif proto_abort.startswith("WALL-TIMEOUT run"):
                 forced = "hang:wall-clock"
+            elif proto_abort.startswith("SIM-STUCK watchdog"):
+                # the thread holding the token reached no schedule point and the simulated run did not end within the
+                # scheduler's wall-clock limit: blocked in a primitive the scheduler does not intercept (e.g. a condition
+                # variable that is never signalled) - a call that does not return
+                forced = "hang:no-progress"
             elif proto_abort.startswith("SIM-STUCK") or proto_abort == "WALL-TIMEOUT":
                 forced = "infra:stuck"
         if forced:
@@ -220,6 +225,7 @@ class Batch:
         self.lock = threading.Lock()
         self.infra_errors = []
         self.per_run_timeout = per_run_timeout
+        self.hangs = 0
 
     def _on_rec(self, rec, i0=None):
         rec.flavour = self.flavour
@@ -228,14 +234,18 @@ class Batch:
         rec.base = self.base
         with self.lock:
             self.recs.append(rec)
+            if rec.vclass in ("hang:no-progress", "hang:wall-clock"):
+                self.hangs += 1   # every such run costs minutes of wall clock: two are enough to report
 
     def _work(self, q):
         while True:
+            if self.hangs >= 2:
+                return   # the batch is cut short; the runs recorded so far are reported
             try:
                 i0, cnt = q.get_nowait()
             except queue.Empty:
                 return
-            while cnt > 0:
+            while cnt > 0 and self.hangs < 2:
                 cmd = [self.exe, "batch", self.engine, str(self.base), str(i0), str(cnt), self.tier]
                 first = i0
                 rc, last, leftover, tail, done = run_worker(cmd, lambda r: self._on_rec(r, first), timeout=self.per_run_timeout * 4 + 60)
@@ -267,7 +277,7 @@ class Batch:
         return self.recs
 
 
-def exec_plan(exe, plan_text, twice=False, timeout=300):
+def exec_plan(exe, plan_text, twice=False, timeout=420):
     """Executes one plan in a fresh process. Returns list of RunRec (1 or 2)."""
     recs = []
     cmd = [exe, "exec", "-"] + (["twice"] if twice else [])
